@@ -261,9 +261,9 @@ def run(chk, tier):
     wd = vlib.scratch("c05")
     rnd = random.Random(chk.seed)
     quick = tier == "quick"
-    nprog = 11 if quick else 48
-    nsplit = 5 if quick else 42
-    ncorpus = 3 if quick else 16
+    nprog = 11 if quick else 30
+    nsplit = 5 if quick else 30
+    ncorpus = 3 if quick else 10
     units.Tree.TIMEOUT = 25 if quick else 90
     progs = family(chk, nprog)
     with concurrent.futures.ThreadPoolExecutor(max_workers=2) as ex:
